@@ -200,14 +200,14 @@ def _owner(op):
     return {"submit": "C04", "update": "C04"}.get(op, "C01")
 
 
-def replay(states, stop_on_cascade=True, printing=False, ctor_funds=False, ccy="USD"):
+def replay(states, stop_on_cascade=True, printing=False, ctor_funds=False, ccy="USD", seconds=0.0):
     """states: [TLC state dict, ...] of one behaviour (first = initial).  Returns
     (events, mismatches) with mismatches = [(step, tag, detail)]."""
     S0 = states[0]
     ob = Observer()
     events, mism = [], []
     with ob.installed():
-        rig = BrokerRig(S0["now"], asdict(S0["quote"]), S0["fee"], ob, printing=printing, ctor_funds=ctor_funds, ccy=ccy)
+        rig = BrokerRig(S0["now"], asdict(S0["quote"]), S0["fee"], ob, printing=printing, ctor_funds=ctor_funds, ccy=ccy, seconds=seconds)
         seed = seed_calls(S0)
         for c in seed:
             ev = rig.apply(c)
